@@ -6,6 +6,7 @@
      "totals ok" | "totals DIFF ids"                 model of propagate_total_memory on the phase-5 tree vs the final dump
      "inserts ok n=<calls>" | "inserts DIFF call=<k> ..."  model of hwloc___insert_object_by_cpuset (Topo/Insert.v) on the tree right
                                                      before each insertion vs the tree right after it (printed once per load, before "wf")
+     "merge ok" | "merge DIFF"                       model of load-time KEEP_STRUCTURE level merging on the phase-4 tree vs the phase-5 tree
      "removal ok" | "removal DIFF"                   model of hwloc_filter_bridges + remove_empty on the phase-3 tree vs the phase-4 tree
    other lines are echoed *)
 let show ls = Stdlib.String.concat "|" (Stdlib.List.map (fun l -> Stdlib.String.concat "," (Stdlib.List.map (fun i -> string_of_int (int_of_n i)) l)) ls)
@@ -14,6 +15,7 @@ let phase_of head =
   let h = kv_tbl (split_on ' ' head) in
   match Stdlib.Hashtbl.find_opt h "phase" with Some p -> int_of_string p | None -> 0
 let p1 = ref None and p5 = ref None and p3 = ref None and p10 = ref None
+let p4 : (dump * n list) option ref = ref None
 let ins_calls = ref 0 and ins_bad = ref []
 let contains s sub = let n = Stdlib.String.length s and m = Stdlib.String.length sub in let rec go i = i + m <= n && (Stdlib.String.sub s i m = sub || go (i + 1)) in go 0
 let () =
@@ -33,7 +35,10 @@ let () =
               p3 := Some (p.pd, !nv)
        | 4 -> (match !p3 with
                | Some (d3, nv) -> print_endline (if removal_agrees d3 p.pd nv then "removal ok" else "removal DIFF")
-               | None -> ()); p3 := None
+               | None -> ()); p3 := None;
+              let dm = ref [] in
+              Stdlib.Array.iteri (fun i l -> if contains l "gdontmerge:1" then dm := n_of_int i :: !dm) p.raw_objs;
+              p4 := Some (p.pd, !dm)
        | 10 -> p10 := Some p
        | 11 -> (match !p10 with
                 | Some b ->
@@ -48,7 +53,10 @@ let () =
                     if not (insert_tie b.pd p.pd (n_of_int ins) (n_of_int root) !dms dm_new (Stdlib.Hashtbl.find h2 "same" = "1") (res = "-"))
                     then ins_bad := (!ins_calls, b.raw_objs.(ins)) :: !ins_bad
                 | None -> ()); p10 := None
-       | 5 -> p5 := Some p.pd
+       | 5 -> (match !p4 with
+               | Some (d4, dm) -> print_endline (if merge_agrees d4 p.pd dm then "merge ok" else "merge DIFF")
+               | None -> ()); p4 := None;
+              p5 := Some p.pd
        | 0 ->
          (if !ins_calls > 0 then (match !ins_bad with
             | [] -> print_endline ("inserts ok n=" ^ string_of_int !ins_calls)
@@ -67,4 +75,4 @@ let () =
                         | None -> print_endline "totals DIFF tree")
           | None -> ()); p5 := None
        | _ -> ())
-    (fun l -> if l = "new rc=0" then (p1 := None; p5 := None; p3 := None; p10 := None; ins_calls := 0; ins_bad := []); print_endline l)
+    (fun l -> if l = "new rc=0" then (p1 := None; p5 := None; p3 := None; p4 := None; p10 := None; ins_calls := 0; ins_bad := []); print_endline l)
